@@ -140,6 +140,13 @@ func orderCritical(r *engine.Run, w *engine.LockWorld) {
 				if sc := x.Call.StaticCallee(); sc != nil && recvNamed(sc) == "MerklePatriciaTrie" && sc.Object() != nil && !sc.Object().Exported() {
 					touches = true
 				}
+				// an exported accessor of the same trie that reads the root (GetRoot): the value it
+				// hands back is a snapshot taken outside the critical section
+				if sc := x.Call.StaticCallee(); sc != nil && recvNamed(sc) == "MerklePatriciaTrie" && len(x.Call.Args) > 0 && len(f.Params) > 0 && x.Call.Args[0] == ssa.Value(f.Params[0]) && readsField(sc, "root") && sc != f {
+					if sc.Name() != "Delete" && sc.Name() != "Insert" { // delegation to the other mutator takes its own lock
+						touches = true
+					}
+				}
 			}
 			if touches && !engine.InstrDominates(locks[0], in) {
 				good = false
@@ -367,4 +374,20 @@ func mptLockDiscipline(r *engine.Run) *engine.LockWorld {
 	r.Min(rule, 60)
 	orderCritical(r, w)
 	return w
+}
+
+// readsField: g loads the named field of its receiver.
+func readsField(g *ssa.Function, name string) bool {
+	if g == nil || len(g.Blocks) == 0 {
+		return false
+	}
+	found := false
+	engine.Instrs(g, func(in ssa.Instruction) {
+		if fa, ok := in.(*ssa.FieldAddr); ok && len(g.Params) > 0 && fa.X == ssa.Value(g.Params[0]) {
+			if fld := engine.FieldOf(fa); fld != nil && fld.Name() == name {
+				found = true
+			}
+		}
+	})
+	return found
 }
